@@ -3,7 +3,8 @@ import sqlprop, sqlcheck
 LEVEL = "model_checking"
 
 def run(ctx):
-    sqlprop.run_sql_property(ctx, corpus=["general", "noalias"], seeded=[("single", None), ("joins", None)], quick_n=350,
+    sqlprop.run_sql_property(ctx, corpus=["general", "noalias", "limoff"], seeded=[("single", None), ("joins", None)], quick_n=350,
+        cfgs=[sqlprop.cfg("mem1"), sqlprop.cfg("mem_b3", batches=3)],
         rule="Frozen corpus of generator-built statements (projection, WHERE, joins, GROUP BY/HAVING, DISTINCT, ORDER BY/LIMIT/OFFSET, "
              "set operations, subqueries, CTEs, CASE/COALESCE/IN/BETWEEN/LIKE over <=2 tables x <=4 rows of the six types with NULLs and "
              "duplicates) plus VERIF_SEED-drawn statements from the restricted grammar; every engine outcome is judged by TLC against "
